@@ -342,6 +342,12 @@ func selftest() int {
 			bad++
 		}
 	}
+	for _, f := range manyQueens {
+		if b, err := rc.ParseFEN(f); err != nil || b.Validate() != nil || len(b.Legal()) < 64 {
+			fmt.Fprintln(realStdout, "selftest: many-queens position must be legal with 64+ moves:", f)
+			bad++
+		}
+	}
 	for _, f := range c08Hemmed {
 		if b, err := rc.ParseFEN(f); err != nil || b.Validate() != nil || len(b.Legal()) != 0 {
 			fmt.Fprintln(realStdout, "selftest: hemmed-in position must be legal and without legal moves:", f)
